@@ -532,10 +532,11 @@ namespace occa {
       //   v check right
       // 1 + ++ x
       //     ^ check left
+      //   v check right
+      // x * -1
+      //   ^ follows a value: binary, whatever comes next
       if (prevTokenIsOp != nextTokenIsOp) {
-        return (onlyUnary
-                ? prevTokenIsOp
-                : nextTokenIsOp);
+        return prevTokenIsOp;
       }
       // y ++ x (Unable to apply operator)
       // y + x
